@@ -454,7 +454,27 @@ def _ownership_transfer(ctx, rc, F, p):
                               'iter') and len(e.args) == 1:
             e = e.args[0]
         return isinstance(e, ast.Name) and e.id == p
+    def deferred(stmts):
+        # ``reached = True; break`` in the walk and ``if reached: ...``
+        # right after it: the work of the stopping branch stands there
+        flags = {st.targets[0].id for st in stmts if isinstance(
+            st, ast.Assign) and len(st.targets) == 1 and isinstance(
+                st.targets[0], ast.Name) and isinstance(
+                    st.value, ast.Constant) and st.value.value is True}
+        if not flags:
+            return stmts
+        par = prog.parent(loop)
+        for fld, val in ast.iter_fields(par) if par is not None else []:
+            if isinstance(val, list) and any(x is loop for x in val):
+                i0 = [i for i, x in enumerate(val) if x is loop][0]
+                for st in val[i0 + 1:]:
+                    if isinstance(st, ast.If) and isinstance(
+                            st.test, ast.Name) and st.test.id in flags and \
+                            not st.orelse:
+                        return list(stmts) + list(st.body)
+        return stmts
     for stmts in early:
+        stmts = deferred(stmts)
         loops = [st for st in stmts if isinstance(st, ast.For) and
                  over_whole_param(st.iter)]
         problem = None
